@@ -202,9 +202,6 @@ func Walk(bucket map[string][]byte, nodePrefix string, root *RootInfo) *WTree {
 		if len(n.Key) == 0 && len(n.Link) == 0 {
 			t.Problems = append(t.Problems, fmt.Sprintf("node %s is empty", name))
 		}
-		if root.BranchFactor > 0 && uint(len(n.Key)) > root.BranchFactor {
-			t.Problems = append(t.Problems, fmt.Sprintf("node %s has %d keys > entries_per_node %d", name, len(n.Key), root.BranchFactor))
-		}
 		for i := 0; i <= len(n.Key); i++ {
 			if i < len(n.Link) && n.Link[i] != "" {
 				rec(n.Link[i], depth+1)
